@@ -43,7 +43,7 @@ def src(name, d, compname="c1"):
     if d["z"]:
         out.append("{% block z %}z" + name + "(){% endblock %}")
     if d["comp"]:
-        out.append("{% component " + compname + "() %}C" + name + "[" + (inc if d["incpos"] == "comp" else "") + "]{% endcomponent " + compname + " %}")
+        out.append("{% component " + compname + "() %}C" + name + ("'" if d.get("v2") else "") + "[" + (inc if d["incpos"] == "comp" else "") + "]{% endcomponent " + compname + " %}")
     if d["usec"]:
         out.append("{{<" + compname + "/>}}")
     return "".join(out)
